@@ -88,13 +88,57 @@ def gen_dag(
     return {"name": name, "nodes": nodes, "order": order, "ext": ext}
 
 
+def gname(nd: dict, p: dict) -> str:
+    """Graph-level name a function parameter is wired to (after rename_inputs)."""
+    return (nd.get("rename_inputs") or {}).get(p["name"], p["name"])
+
+
 def dag_consumed_ext(g: dict) -> list[str]:
     used = []
     for nd in g["nodes"]:
         for p in nd.get("params", []):
-            if p["name"] in g["ext"] and p["name"] not in used:
-                used.append(p["name"])
+            gn = gname(nd, p)
+            if gn in g["ext"] and gn not in used:
+                used.append(gn)
     return used
+
+
+def add_fn_renames(rng: random.Random, g: dict, p_node: float = 0.3) -> int:
+    """Rename function-node inputs (rename_inputs): fresh names, parallel swaps, rotations.
+
+    ``params`` stay the function's own parameters; the default of a parameter is the default of
+    the graph-level name it is wired to (defaults are per graph name, consistently)."""
+    defaults = {}
+    for nd in g["nodes"]:
+        for p in nd["params"]:
+            if "default" in p:
+                defaults[p["name"]] = p["default"]
+    n = 0
+    for nd in g["nodes"]:
+        if nd["kind"] != "fn" or not nd["params"] or rng.random() >= p_node:
+            continue
+        names = [p["name"] for p in nd["params"]]
+        style = rng.choice(["fresh", "swap", "swap", "rotate"])
+        if style == "fresh" or len(names) < 2:
+            x = rng.choice(names)
+            ri = {"q_" + x: x}
+            new = [{"name": ("q_" + x) if nm == x else nm} for nm in names]
+        elif style == "swap" or len(names) < 3:
+            a, b = rng.sample(names, 2)
+            ri = {a: b, b: a}
+            new = [{"name": nm} for nm in names]
+        else:
+            a, b, c = rng.sample(names, 3)
+            ri = {a: b, b: c, c: a}
+            new = [{"name": nm} for nm in names]
+        for q in new:
+            gn = ri.get(q["name"], q["name"])
+            if gn in defaults:
+                q["default"] = defaults[gn]
+        nd["params"] = new
+        nd["rename_inputs"] = ri
+        n += 1
+    return n
 
 
 def gen_inputs(rng: random.Random, g: dict, *, p_bind: float = 0.3, p_omit: float = 0.5) -> dict:
@@ -117,13 +161,14 @@ def eval_dag(g: dict, provided: dict, bound: dict) -> dict[str, Any]:
         a: dict[str, Any] = {}
         ok = True
         for p in nd.get("params", []):
-            pn = p["name"]
-            if pn in vals:
-                a[pn] = vals[pn]
-            elif pn in provided:
-                a[pn] = provided[pn]
-            elif pn in bound:
-                a[pn] = bound[pn]
+            pn = p["name"]  # what the function sees
+            gn = gname(nd, p)  # the graph-level name it is wired to
+            if gn in vals:
+                a[pn] = vals[gn]
+            elif gn in provided:
+                a[pn] = provided[gn]
+            elif gn in bound:
+                a[pn] = bound[gn]
             elif "default" in p:
                 a[pn] = p["default"]
             else:
@@ -173,7 +218,7 @@ def loop_block(
     With ``signal`` the gate waits on a signal emitted by the last body node."""
     L = L if L is not None else rng.randint(1, 4)
     N = N if N is not None else rng.randint(0, 6)
-    gate = gate or rng.choice(["route", "ifelse"])
+    gate = gate or rng.choice(["route", "ifelse", "multi"])
     exit_node = rng.random() < 0.5 if exit_node is None else exit_node
     signal = rng.random() < 0.3 if signal is None else signal
     default_open = rng.random() < 0.7 if default_open is None else default_open
@@ -207,6 +252,10 @@ def loop_block(
     }
     if gate == "route":
         g.update({"kind": "route", "targets": [f"{prefix}b0", tgt_exit]})
+    elif gate == "multi":
+        # multi-target route gate: decisions are lists
+        g.update({"kind": "route", "multi": True, "targets": [f"{prefix}b0"] + ([tgt_exit] if exit_node else [])})
+        g["decide"] = {"op": "lt", "param": s[0], "value": N, "then": [f"{prefix}b0"], "else": [tgt_exit] if exit_node else []}
     else:
         g.update({"kind": "ifelse", "when_true": f"{prefix}b0", "when_false": tgt_exit})
         g["decide"] = {"op": "lt", "param": s[0], "value": N, "then": True, "else": False}
@@ -276,7 +325,10 @@ def gen_program(
             first_fn = False
             nout = rng.choice([0, 1, 1, 1, 2])
             outs = [f"{prefix}o{i}_{j}" for j in range(nout)]
-            nodes.append({"kind": "fn", "name": f"{prefix}n{i}", "params": [{"name": p} for p in params], "outs": outs, "_slot": i})
+            nd_new = {"kind": "fn", "name": f"{prefix}n{i}", "params": [{"name": p} for p in params], "outs": outs, "_slot": i}
+            if feats.get("gens") and nout == 1 and rng.random() < 0.15:
+                nd_new["gen"] = True  # (async) generator function: the framework drains it into a list
+            nodes.append(nd_new)
             avail += outs
         elif kind == "gate":
             k = rng.randint(1, min(2, len(avail)))
@@ -332,14 +384,23 @@ def gen_program(
         if style == "ifelse":
             a = tg[0]
             b = tg[1] if len(tg) > 1 else "@END"
+            if rng.random() < 0.5:
+                a, b = b, a  # END may be the when_true branch
             g.update({"kind": "ifelse", "when_true": a, "when_false": b, "decide": {"op": "mod", "choices": [True, False]}})
         elif style == "multi":
             choices = [[], tg[:1], tg] + ([tg[1:]] if len(tg) > 1 else [])
             g.update({"kind": "route", "targets": tg, "multi": True, "decide": {"op": "mod", "choices": choices}})
         else:
-            targets = tg + (["@END"] if rng.random() < 0.4 else [])
+            targets = list(tg)
+            if rng.random() < 0.45:
+                targets.insert(rng.randrange(len(targets) + 1), "@END")  # END anywhere in the declared list
             choices = list(targets) + ([None] if rng.random() < 0.2 else [])
             g.update({"kind": "route", "targets": targets, "decide": {"op": "mod", "choices": choices}})
+            if rng.random() < 0.25:
+                # fallback: a declared target, or a further node (the constructor appends it after the declared ones)
+                extra = [x for x in later if x not in tg]
+                g["fallback"] = rng.choice(extra) if (extra and rng.random() < 0.6) else rng.choice(tg)
+                g["decide"]["choices"] = choices + [None, None]
     # ordering signals between an earlier producer and a later waiter
     if feats["signals"]:
         cand = [nd for nd in nodes if nd["kind"] in ("fn", "route", "ifelse") and not nd.get("blk")]
@@ -420,3 +481,14 @@ def fn_nodes(g: dict) -> list[tuple[dict, int]]:
         elif nd["kind"] == "graph":
             out += [(n, d + 1) for n, d in fn_nodes(nd["graph"])]
     return out
+
+
+def gate_targets(nd: dict) -> list[str]:
+    """All targets of a gate spec as the constructor sees them (declared ones, then an undeclared fallback)."""
+    if nd["kind"] == "ifelse":
+        return [nd["when_true"], nd["when_false"]]
+    t = list(nd["targets"])
+    fb = nd.get("fallback")
+    if fb is not None and fb not in t:
+        t.append(fb)
+    return t
